@@ -26,7 +26,8 @@ VARIANTS = {
 }
 for _v in list(VARIANTS):
     cc, fl, sc = VARIANTS[_v]
-    VARIANTS[_v + "-h"] = (cc, fl + [HOOKS_DEF], sc)
+    # hooked variants: statistics off, so that switch points are spent on the allocator's protocols and not on counters
+    VARIANTS[_v + "-h"] = (cc, [f for f in fl if not f.startswith("-DMI_STAT")] + ["-DMI_STAT=0", HOOKS_DEF], sc)
 
 SAN_FLAGS = {
     "plain": [],
